@@ -220,7 +220,7 @@ func (p *plRun) walk(cf plConfig, trace []string) {
 			}
 		case *ssa.Return:
 			errSlot := errIndex(p.fn.Signature)
-			if errSlot >= 0 && isNilConst(in.Results[errSlot]) {
+			if errSlot >= 0 && isNilConst(retResults(in)[errSlot]) {
 				p.successReturns++
 				if lastMatch != nil {
 					p.unknown(in.Pos(), trace, "success return with an unexamined match result")
@@ -398,6 +398,149 @@ func (c *Ctx) clauseStart(fn *ssa.Function, tokName string) *ssa.BasicBlock {
 func init() {
 	register("P-LISTS", ruleLists)
 	register("P-PARSE", ruleParseEOF)
+	register("P-CALLEE", ruleCallee)
+	register("P-SLICE0", ruleSliceStepZero)
+}
+
+// P-CALLEE: a call's callee is an identifier node.
+func ruleCallee(c *Ctx) *RuleResult {
+	r := &RuleResult{Doc: "led(tLparen): every success return is dominated by the test that the left node is an ASTField", Floor: 1}
+	fn := c.A.Led
+	sw, _ := c.switchLabels(fn, c.A.TokT)
+	cl := sw.clause("tLparen")
+	if cl == nil {
+		lost("led has no tLparen clause")
+	}
+	var nodeParam *ssa.Parameter
+	for _, p := range fn.Params {
+		if c.isASTNode(p.Type()) {
+			nodeParam = p
+		}
+	}
+	if nodeParam == nil {
+		lost("led has no node parameter")
+	}
+	spill := paramSpill(nodeParam)
+	// blocks entered only when node.nodeType == ASTField
+	var guards []*ssa.BasicBlock
+	for _, b := range fn.Blocks {
+		ifi := blockIf(b)
+		if ifi == nil {
+			continue
+		}
+		bo, ok := ifi.Cond.(*ssa.BinOp)
+		if !ok || (bo.Op != token.EQL && bo.Op != token.NEQ) {
+			continue
+		}
+		k, ok := constInt(bo.Y)
+		if !ok || k != c.A.NT["ASTField"] || !types.Identical(bo.Y.Type(), c.A.NodeTypeT) {
+			continue
+		}
+		base, fld, ok := fieldRead(bo.X)
+		if !ok || fld != fNodeType || !(base == nodeParam || (spill != nil && base == spill)) {
+			continue
+		}
+		idx := 0
+		if bo.Op == token.NEQ {
+			idx = 1
+		}
+		s := b.Succs[idx]
+		if len(s.Preds) == 1 {
+			guards = append(guards, s)
+		}
+	}
+	n := 0
+	for _, b := range fn.Blocks {
+		ret := blockReturn(b)
+		if ret == nil || sw.clauseAt(instrPos(ret)) != cl || !isNilConst(retResults(ret)[1]) {
+			continue
+		}
+		n++
+		r.Instances++
+		key := fmt.Sprintf("callee|return#%d", n)
+		dominated := false
+		for _, g := range guards {
+			if g.Dominates(b) {
+				dominated = true
+			}
+		}
+		if dominated {
+			r.ok(key, c.pos(ret.Pos()), fname(fn), "the function-expression node is only built when the left node is an ASTField (identifier)")
+		} else {
+			r.viol(key, c.pos(ret.Pos()), fname(fn), "a function expression can be built although the node before '(' is not an identifier (ASTField): the grammar only allows unquoted-string '(' args ')'")
+		}
+	}
+	return r
+}
+
+// P-SLICE0: a zero step is an error for every array.
+func ruleSliceStepZero(c *Ctx) *RuleResult {
+	r := &RuleResult{Doc: "slice(): every success return follows a successful computeSliceParams; computeSliceParams: every success return follows the false edge of the 'step specified and == 0' test", Floor: 2}
+	sl := c.libFunc("slice")
+	cp := c.libFunc("computeSliceParams")
+	// (1) slice
+	calls := callsTo(sl, cp)
+	r.Instances++
+	if len(calls) == 0 {
+		r.viol("slice-calls-params", c.pos(sl.Pos()), fname(sl), "slice() does not call computeSliceParams")
+	} else {
+		bad := ""
+		for _, b := range sl.Blocks {
+			ret := blockReturn(b)
+			if ret == nil || !isNilConst(retResults(ret)[1]) {
+				continue
+			}
+			dom := false
+			for _, call := range calls {
+				if call.Block().Dominates(b) && call.Block() != b {
+					dom = true
+				}
+			}
+			if !dom {
+				bad = c.pos(ret.Pos())
+			}
+		}
+		if bad == "" {
+			r.ok("slice-calls-params", c.pos(calls[0].Pos()), fname(sl), "every success return of slice() is dominated by the parameter computation (whose error is forwarded: E-DISC)")
+		} else {
+			r.viol("slice-calls-params", bad, fname(sl), "a success return of slice() is reachable without computing the slice parameters: a zero step would not be reported (e.g. for an empty array)")
+		}
+	}
+	// (2) computeSliceParams: test of parts[2].N == 0
+	r.Instances++
+	var zeroEdge *ssa.BasicBlock
+	for _, b := range cp.Blocks {
+		ifi := blockIf(b)
+		if ifi == nil {
+			continue
+		}
+		bo, ok := ifi.Cond.(*ssa.BinOp)
+		if !ok || bo.Op != token.EQL {
+			continue
+		}
+		if k, ok := constInt(bo.Y); !ok || k != 0 {
+			continue
+		}
+		if c.symStr(bo.X, 0) != "?" && strings.Contains(c.symStr(bo.X, 0), "N") {
+			zeroEdge = b.Succs[0]
+		}
+	}
+	if zeroEdge == nil {
+		r.viol("step-zero-test", c.pos(cp.Pos()), fname(cp), "no test of the step against 0")
+	} else {
+		okErr := true
+		for bb := range reachableFrom(zeroEdge, nil) {
+			if ret := blockReturn(bb); ret != nil && !neverNilError(c, retResults(ret)[1]) {
+				okErr = false
+			}
+		}
+		if okErr && len(zeroEdge.Preds) == 1 {
+			r.ok("step-zero-test", c.pos(zeroEdge.Instrs[0].Pos()), fname(cp), "step == 0 leads only to returns with a fresh error")
+		} else {
+			r.viol("step-zero-test", c.pos(cp.Pos()), fname(cp), "the step == 0 edge can reach a success return")
+		}
+	}
+	return r
 }
 
 func (c *Ctx) reportPL(r *RuleResult, key string, p *plRun, pos token.Pos) {
